@@ -1,1 +1,252 @@
+(** Proofs about Kernels/LRU.v: invariant, refinement to the recency-list spec. *)
 From LQ Require Import Base.Str Kernels.LRU.
+From Coq Require Import Lia.
+
+Section P.
+Context {V : Type}.
+Implicit Types (l : list (str * V)) (c : lru V).
+
+(** ** association-list facts *)
+
+Lemma assoc_None_notin k l : assoc k l = None <-> ~ In k (keys l).
+Proof.
+  induction l as [|[k' v] l IH]; simpl; [tauto|].
+  destruct (str_eqb k k') eqn:E.
+  - apply str_eqb_eq in E; subst. split; [discriminate|intro H; exfalso; apply H; auto].
+  - apply str_eqb_neq in E. rewrite IH. split; intro H.
+    + intros [H1|H1]; [congruence|auto].
+    + intro H1; apply H; auto.
+Qed.
+
+Lemma assoc_Some_in k v l : assoc k l = Some v -> In k (keys l).
+Proof.
+  intro H. destruct (in_dec (list_eq_dec N.eq_dec) k (keys l)) as [i|n]; [exact i|].
+  apply assoc_None_notin in n. congruence.
+Qed.
+
+Lemma remove_key_notin k l : ~ In k (keys l) -> remove_key k l = l.
+Proof.
+  induction l as [|[k' v] l IH]; simpl; intro H; [reflexivity|].
+  destruct (str_eqb k k') eqn:E.
+  - apply str_eqb_eq in E; subst. exfalso; apply H; auto.
+  - f_equal. apply IH. intro; apply H; auto.
+Qed.
+
+Lemma keys_remove_key_subset k k0 l : In k0 (keys (remove_key k l)) -> In k0 (keys l) /\ k0 <> k.
+Proof.
+  induction l as [|[k' v] l IH]; simpl; [tauto|].
+  destruct (str_eqb k k') eqn:E.
+  - apply str_eqb_eq in E; subst. intro H; apply IH in H. tauto.
+  - apply str_eqb_neq in E. simpl. intros [H|H]; [subst; split; auto; congruence|].
+    apply IH in H. tauto.
+Qed.
+
+Lemma keys_remove_key_in k k0 l : In k0 (keys l) -> k0 <> k -> In k0 (keys (remove_key k l)).
+Proof.
+  induction l as [|[k' v] l IH]; simpl; [tauto|]. intros H N.
+  destruct (str_eqb k k') eqn:E.
+  - apply str_eqb_eq in E; subst. destruct H as [H|H]; [congruence|auto].
+  - simpl. destruct H as [H|H]; auto.
+Qed.
+
+Lemma NoDup_remove_key k l : NoDup (keys l) -> NoDup (keys (remove_key k l)).
+Proof.
+  induction l as [|[k' v] l IH]; simpl; intro H; [constructor|].
+  inversion H as [|? ? Hn Hd]; subst.
+  destruct (str_eqb k k'); [auto|]. simpl. constructor; [|auto].
+  intro Hi. apply keys_remove_key_subset in Hi. tauto.
+Qed.
+
+Lemma length_remove_key_present k v l :
+  NoDup (keys l) -> assoc k l = Some v -> S (length (remove_key k l)) = length l.
+Proof.
+  induction l as [|[k' v'] l IH]; simpl; intros Hd H; [discriminate|].
+  inversion Hd as [|? ? Hn Hd']; subst.
+  destruct (str_eqb k k') eqn:E.
+  - apply str_eqb_eq in E; subst. rewrite remove_key_notin; auto.
+  - simpl. f_equal. apply IH; auto.
+Qed.
+
+Lemma keys_app l1 l2 : keys (l1 ++ l2) = keys l1 ++ keys l2.
+Proof. unfold keys. apply map_app. Qed.
+
+Lemma keys_rev l : keys (rev l) = rev (keys l).
+Proof. unfold keys. apply map_rev. Qed.
+
+Lemma assoc_app k l1 l2 :
+  assoc k (l1 ++ l2) = match assoc k l1 with Some v => Some v | None => assoc k l2 end.
+Proof.
+  induction l1 as [|[k' v] l1 IH]; simpl; [reflexivity|].
+  destruct (str_eqb k k'); auto.
+Qed.
+
+Lemma assoc_rev k l : NoDup (keys l) -> assoc k (rev l) = assoc k l.
+Proof.
+  induction l as [|[k' v] l IH]; simpl; intro H; [reflexivity|].
+  inversion H as [|? ? Hn Hd]; subst.
+  rewrite assoc_app, IH by assumption. simpl.
+  destruct (str_eqb k k') eqn:E.
+  - apply str_eqb_eq in E; subst.
+    apply assoc_None_notin in Hn. rewrite Hn. reflexivity.
+  - destruct (assoc k l); reflexivity.
+Qed.
+
+Lemma remove_key_app k l1 l2 : remove_key k (l1 ++ l2) = remove_key k l1 ++ remove_key k l2.
+Proof.
+  induction l1 as [|[k' v] l1 IH]; simpl; [reflexivity|].
+  destruct (str_eqb k k'); simpl; rewrite IH; reflexivity.
+Qed.
+
+Lemma remove_key_rev k l : remove_key k (rev l) = rev (remove_key k l).
+Proof.
+  induction l as [|[k' v] l IH]; simpl; [reflexivity|].
+  rewrite remove_key_app, IH. simpl.
+  destruct (str_eqb k k'); simpl; [rewrite app_nil_r|]; reflexivity.
+Qed.
+
+Lemma NoDup_keys_snoc k v l : NoDup (keys l) -> ~ In k (keys l) -> NoDup (keys (l ++ [(k, v)])).
+Proof.
+  intros Hd Hn. rewrite keys_app. simpl.
+  apply NoDup_rev in Hd. rewrite <- (rev_involutive (keys l ++ [k])).
+  apply NoDup_rev. rewrite rev_app_distr. simpl. constructor; [|exact Hd].
+  rewrite <- in_rev. exact Hn.
+Qed.
+
+Lemma NoDup_tl {A} (xs : list A) : NoDup xs -> NoDup (tl xs).
+Proof. destruct xs; simpl; intro H; [constructor|inversion H; auto]. Qed.
+
+Lemma keys_tl l : keys (tl l) = tl (keys l).
+Proof. destruct l; reflexivity. Qed.
+
+Lemma In_tl {A} (x : A) (xs : list A) : In x (tl xs) -> In x xs.
+Proof. destruct xs; simpl; auto. Qed.
+
+(** ** the invariant *)
+
+Definition lru_inv c : Prop :=
+  NoDup (keys (od c)) /\ length (od c) <= cap c /\ 1 <= cap c.
+
+Lemma lru_empty_inv n : 1 <= n -> lru_inv (lru_empty (V:=V) n).
+Proof. intro H. repeat split; simpl; [constructor|lia|exact H]. Qed.
+
+Lemma not_in_remove_key k l : ~ In k (keys (remove_key k l)).
+Proof. intro H. apply keys_remove_key_subset in H. tauto. Qed.
+
+Lemma move_to_end_props k v v0 l :
+  NoDup (keys l) -> assoc k l = Some v0 ->
+  NoDup (keys (od_move_to_end k v l)) /\ length (od_move_to_end k v l) = length l.
+Proof.
+  intros Hd Ha. unfold od_move_to_end. split.
+  - apply NoDup_keys_snoc; [apply NoDup_remove_key; exact Hd|apply not_in_remove_key].
+  - rewrite app_length. simpl. rewrite <- (length_remove_key_present k v0 l Hd Ha). lia.
+Qed.
+
+Lemma lru_get_inv c k v c' : lru_inv c -> lru_get c k = Some (v, c') -> lru_inv c' /\ cap c' = cap c.
+Proof.
+  intros (Hd & Hl & Hc). unfold lru_get. destruct (assoc k (od c)) as [v0|] eqn:Ha; [|discriminate].
+  intro E; inversion E; subst; clear E. simpl.
+  destruct (move_to_end_props k v v (od c) Hd Ha) as [H1 H2].
+  split; [repeat split; simpl; [exact H1|rewrite H2; exact Hl|exact Hc]|reflexivity].
+Qed.
+
+Lemma lru_set_inv c k v : lru_inv c -> lru_inv (lru_set c k v) /\ cap (lru_set c k v) = cap c.
+Proof.
+  intros (Hd & Hl & Hc). unfold lru_set.
+  destruct (assoc k (od c)) as [v0|] eqn:Ha; simpl.
+  - destruct (move_to_end_props k v v0 (od c) Hd Ha) as [H1 H2].
+    split; [repeat split; simpl; [exact H1|rewrite H2; exact Hl|exact Hc]|reflexivity].
+  - apply assoc_None_notin in Ha.
+    split; [|reflexivity].
+    destruct (Nat.leb (cap c) (length (od c))) eqn:E; repeat split; simpl.
+    + apply NoDup_keys_snoc.
+      * rewrite keys_tl. apply NoDup_tl. exact Hd.
+      * rewrite keys_tl. intro H; apply In_tl in H. contradiction.
+    + rewrite app_length. simpl. destruct (od c); simpl in *; lia.
+    + exact Hc.
+    + apply NoDup_keys_snoc; assumption.
+    + rewrite app_length. simpl. apply Nat.leb_gt in E. lia.
+    + exact Hc.
+Qed.
+
+Lemma od_mutate_keys k f l : keys (od_mutate k f l) = keys l.
+Proof.
+  induction l as [|[k' v] l IH]; simpl; [reflexivity|].
+  destruct (str_eqb k k'); simpl; [reflexivity|f_equal; exact IH].
+Qed.
+
+Lemma od_mutate_length k f l : length (od_mutate k f l) = length l.
+Proof.
+  induction l as [|[k' v] l IH]; simpl; [reflexivity|].
+  destruct (str_eqb k k'); simpl; [reflexivity|f_equal; exact IH].
+Qed.
+
+Lemma lru_mutate_inv c k f : lru_inv c -> lru_inv (lru_mutate c k f).
+Proof.
+  intros (Hd & Hl & Hc). repeat split; simpl.
+  - rewrite od_mutate_keys. exact Hd.
+  - rewrite od_mutate_length. exact Hl.
+  - exact Hc.
+Qed.
+
+(** ** refinement to the recency-list specification *)
+
+Theorem lru_get_refines c k :
+  lru_inv c ->
+  match lru_get c k with
+  | Some (v, c') => spec_get (lru_abs c) k = Some (v, lru_abs c')
+  | None => spec_get (lru_abs c) k = None
+  end.
+Proof.
+  intros (Hd & _ & _). unfold lru_get, spec_get, lru_abs.
+  rewrite assoc_rev by exact Hd.
+  destruct (assoc k (od c)) as [v|]; [|reflexivity]. simpl.
+  unfold od_move_to_end, spec_use. rewrite rev_app_distr. simpl.
+  rewrite remove_key_rev. reflexivity.
+Qed.
+
+Lemma firstn_all_le {A} n (xs : list A) : length xs <= n -> firstn n xs = xs.
+Proof. intro H. apply firstn_all2. exact H. Qed.
+
+Theorem lru_set_refines c k v :
+  lru_inv c -> lru_abs (lru_set c k v) = spec_set (cap c) (lru_abs c) k v.
+Proof.
+  intros (Hd & Hl & Hc). unfold lru_set, spec_set, spec_use, lru_abs.
+  destruct (assoc k (od c)) as [v0|] eqn:Ha; simpl.
+  - unfold od_move_to_end. rewrite rev_app_distr. simpl. rewrite remove_key_rev.
+    symmetry. apply firstn_all_le. simpl. rewrite rev_length.
+    rewrite (length_remove_key_present k v0 (od c) Hd Ha). exact Hl.
+  - apply assoc_None_notin in Ha.
+    rewrite remove_key_rev, (remove_key_notin k (od c) Ha).
+    destruct (Nat.leb (cap c) (length (od c))) eqn:E.
+    + apply Nat.leb_le in E. assert (El : length (od c) = cap c) by lia.
+      rewrite rev_app_distr. simpl.
+      destruct (cap c) as [|n] eqn:Ec; [lia|]. simpl. f_equal.
+      destruct (od c) as [|x l]; simpl in *; [lia|].
+      rewrite firstn_app. rewrite rev_length.
+      assert (length l = n) by lia. subst n.
+      rewrite Nat.sub_diag. simpl. rewrite app_nil_r.
+      apply eq_sym, firstn_all_le. rewrite rev_length. lia.
+    + apply Nat.leb_gt in E. rewrite rev_app_distr. simpl.
+      symmetry. apply firstn_all_le. simpl. rewrite rev_length. lia.
+Qed.
+
+(** Eviction removes exactly the least recently used entry: after inserting a
+    new key into a full cache, the recency list is the new entry followed by
+    the old list without its last element. *)
+Theorem lru_evicts_least_recent c k v :
+  lru_inv c -> assoc k (od c) = None -> length (od c) = cap c ->
+  lru_abs (lru_set c k v) = (k, v) :: removelast (lru_abs c).
+Proof.
+  intros Hi Ha Hfull. rewrite lru_set_refines by exact Hi.
+  destruct Hi as (Hd & Hl & Hc). unfold spec_set, spec_use, lru_abs.
+  apply assoc_None_notin in Ha.
+  rewrite remove_key_rev, (remove_key_notin k (od c) Ha).
+  destruct (cap c) as [|n] eqn:Ec; [lia|]. simpl. f_equal.
+  destruct (od c) as [|x l]; simpl in *; [lia|].
+  rewrite removelast_app by discriminate. simpl. rewrite app_nil_r.
+  rewrite firstn_app, rev_length. assert (length l = n) by lia. subst n.
+  rewrite Nat.sub_diag. simpl. rewrite app_nil_r.
+  apply firstn_all_le. rewrite rev_length. lia.
+Qed.
+
+End P.
